@@ -1,6 +1,6 @@
 From Coq Require Import extraction.Extraction extraction.ExtrOcamlBasic.
-From TU Require Import Base C13_Model.
-Definition run := run_C13.
-Definition check := check_C13.
-Definition agree := agree_C13.
+From TU Require Import Base C13_Model C13_Float.
+Definition run := run_C13F.
+Definition check := check_C13F.
+Definition agree := agree_C13F.
 Extraction "model.ml" run check agree.
